@@ -61,6 +61,9 @@ func (c *badRegexpChecker) VisitExpr(x ast.Expr) {
 	if !isPkgFunc(c.ctx, call.Fun, "regexp") {
 		return
 	}
+	if len(call.Args) != 1 {
+		return // Ill-typed code: all functions of interest take the pattern as their only argument.
+	}
 
 	switch qualifiedName(call.Fun) {
 	case "regexp.Compile", "regexp.MustCompile":
